@@ -75,6 +75,17 @@ def make_garbage(kind, genuine):
         except Exception:
             return genuine[:-1]
         return GARBAGE
+    if kind == "inner" and genuine and len(genuine) > 8:
+        # the genuine answer with a sound envelope (first octets and announced length untouched) and a damaged body: the number
+        # of information elements it announces is one more than it carries
+        import perdec
+        k = 3 + (1 if genuine[3] < 0x80 else 2) + 2
+        cand = genuine[:k] + bytes([(genuine[k] + 1) & 0xff]) + genuine[k + 1:]
+        try:
+            perdec.decode("ngapType.NGAPPDU", "valueExt,valueLB:0,valueUB:2", cand)
+        except Exception:
+            return cand
+        return GARBAGE
     if kind in ("text", "padbits"):
         # what a wrong peer sends (an HTTP error / request line), or the genuine answer with one of the padding bits of its first
         # octet set: not an aligned-PER NGAP PDU for the independent decoder; GARBAGE when that decoder accepts it
